@@ -28,8 +28,8 @@ def series_wf(st, m, min_time=0):
     t = st.read(m, "time").term
     refs = series_refs(st, m)
     cs = [("clock>=%d" % min_time, t >= min_time), ("series-distinct", z3.Distinct(*refs))]
-    for (n, _), r in zip(SERIES, refs):
-        cs.append((f"len({n})>time", st.length(r) > t))
+    for (n, ety), r in zip(SERIES, refs):
+        cs.append((f"len({n})>time", st.length(r, ety) > t))
     return cs
 
 
@@ -108,7 +108,8 @@ def book_inv(st, book, tag=""):
                 z3.And(mem(x), z3.Not(ttln[x]), exp_key(st, x) == k)))),
           ("B5 nothing overdue rests", z3.ForAll([x], z3.Implies(z3.And(mem(x), z3.Not(ttln[x])), exp_key(st, x) >= time))),
           ("B6 queue and bucket lists are allocated objects", z3.And(st.is_alloc(q), st.is_alloc(etl(st, book).term),
-              z3.ForAll([k], z3.Implies(bucket_dom(st, book, k), st.is_alloc(bucket_list(st, book, k)))))),
+              z3.ForAll([k], z3.Implies(bucket_dom(st, book, k), st.is_alloc(bucket_list(st, book, k)))),
+              z3.ForAll([x], z3.Implies(mem(x), st.is_alloc(x))))),
           ("B6 separation: bucket lists are not the queue and pairwise distinct", z3.And(
               z3.ForAll([k], z3.Implies(bucket_dom(st, book, k), bucket_list(st, book, k) != q)),
               z3.ForAll([k, k2], z3.Implies(z3.And(bucket_dom(st, book, k), bucket_dom(st, book, k2), k != k2), bucket_list(st, book, k) != bucket_list(st, book, k2)))))]
